@@ -14,7 +14,7 @@ RULE = ('two kinds of seeded cases. history: 1-4 epochs of 1-3 caller processes 
         'after a chosen number of bytes, killed at a chosen file operation, wrapped function raising (always or once), consumer abandoning an iteration, ENOSPC/EIO, pre-existing empty/truncated/bogus/old-format entries. '
         'enum: the byte stream of every cache entry written by a fault-free run is recorded, then for EVERY byte offset of every entry (all offsets for entries up to 4000 bytes, else all offsets in the first and last 400 bytes, '
         'around every write() boundary and a seeded sample) the directory is put in the state a kill at that offset leaves and the call is repeated twice and compared with the uncached model. '
-        'distinct = SHA-1 of the event log (history) or (operation, entry file ordinal, offset) (enum); non-trivial = at least one entry was served from cache or recomputed after a fault')
+        'distinct = SHA-1 of the event log (history) or (operation, entry file ordinal, offset) (enum); non-trivial = at least one entry was served from cache or recomputed after a fault. killsweep: one caller is killed at EVERY one of its yield points in turn (every file operation, lock request, entry to and exit from the wrapped function; within a wall budget), a fresh process then repeats the operations')
 ASSUMPTIONS = [
     '"killed" means SIGKILL of the process: completed write()s survive (page cache), nothing after the kill instant happens; power loss / lost or reordered writes are outside the statement and not injected',
     'flock has kernel semantics in the stub: exclusive per file, released on close and on process death',
@@ -94,6 +94,12 @@ def gen_op(rng, small=False):
 
 
 def gen_case(rng, index, tier):
+    if rng.random() < (0.08 if tier == 'thorough' else 0.05):
+        ops = [gen_op(rng, small=True) for _ in range(rng.choice([1, 1, 2]))]
+        for op in ops:
+            if op['t'] == 'iter':
+                op['m'] = min(op['m'], 3)
+        return dict(mode='killsweep', ops=ops)
     if rng.random() < 0.4:
         op = gen_op(rng, small=rng.random() < (0.5 if tier == 'thorough' else 0.8))
         while op.get('f') == 'f_fails':
@@ -510,7 +516,60 @@ def run_history(case):
     results = {(ei, ci): _read_results(p) for ei, ci, p in resfiles}
     res = judge_history(case, models, results, events, info, outcome, garbage_applied)
     _unscratch(scratch)
+    if case.get('_want_events'):
+        res['_events'] = events.tolist()
     return res
+
+
+def run_killsweep(case):
+    '''Crash-point sweep: ONE caller performs its operations and is killed at EVERY one of its yield points in turn (every file operation,
+    lock request, entry to and exit from the wrapped function); a fresh process then repeats the operations and must get the uncached
+    values and logs.  Complete over the operation boundaries of that history; the byte offsets inside a write are the enumeration mode.'''
+    base = dict(mode='history', epochs=[dict(callers=[dict(ops=case['ops'], io=None)], pre=[]), dict(callers=[dict(ops=case['ops'], io=None)], pre=[])],
+                sched=dict(kind='rr'), faults=[], func_fail_at=[], gran='sync', _index=case.get('_index'), _want_events=True)
+    res = run_history(base)
+    events = res.pop('_events', [])
+    if res['verdict'] != 'pass':
+        return res
+    yk = {procsim.K[k] for k in ('FTOUCH', 'FMKDIR', 'FOPEN', 'FLOCK', 'FSEEK', 'FREAD', 'FWRITE', 'FCLOSE', 'ENTER', 'LEAVE', 'FUNLOCK', 'FLOCKOK', 'EXIT')}
+    n1 = sum(1 for e in events if e[0] == 1)   # an upper bound on the yields of the first caller (slot 1): every event it logged
+    total = dict(res)
+    total['probes'] = dict(res.get('probes', {}))
+    fired_total = {}
+    digests = [res.get('digest')]
+    fired_runs = 0
+    npoints = 0
+    import time as _time
+    t0 = _time.monotonic()
+    complete = True
+    for n in range(1, min(n1, 120) + 1):
+        if _time.monotonic() - t0 > 40:
+            complete = False   # wall budget of a sweep (slow machine): the rest of the crash points is left to other cases
+            break
+        c = copy.deepcopy(base)
+        c.pop('_want_events')
+        c['faults'] = [dict(kind='KILL', proc=1, ykind='ANY', n=n)]
+        r = run_history(c)
+        npoints += 1
+        digests.append(r.get('digest'))
+        total['steps'] = total.get('steps', 0) + r.get('steps', 0)
+        for k, v in (r.get('fired') or {}).items():
+            fired_total[k] = fired_total.get(k, 0) + v
+        if r.get('fired', {}).get('KILL_AT_ANY'):
+            fired_runs += 1
+        if r['verdict'] != 'pass':
+            c['_index'] = case.get('_index')
+            r['_resolved_case'] = c       # reported, shrunk and replayed as an ordinary history with one kill
+            r['detail'] = f'crash-point sweep, caller killed at its yield {n}: ' + str(r.get('detail'))
+            return r
+        if not r.get('fired', {}).get('KILL_AT_ANY'):
+            break    # the caller has fewer yields than n: the sweep is complete
+    total['fired'] = fired_total
+    total['digest'] = total['sig'] = core.sha(['killsweep', digests[0]])   # of the fault-free pilot: how far a sweep gets within its wall budget must not enter the determinism check
+    total['nontrivial'] = True
+    total['family'] = 'killsweep'
+    total['probes'].update(killsweep_cases=1, killsweep_crash_points=fired_runs, killsweep_complete=int(complete), mode_history=0, mode_killsweep=1)
+    return total
 
 
 def judge_history(case, models, results, events, info, outcome, garbage_applied):
@@ -761,6 +820,8 @@ def run_case(case):
     with treelog.set(treelog.NullLog()), filesim.patched_cache():
         if case['mode'] == 'enum':
             return run_enum(case)
+        if case['mode'] == 'killsweep':
+            return run_killsweep(case)
         return run_history(case)
 
 
@@ -775,6 +836,8 @@ def evidence_extra(results):
 
 def shrink_candidates(case):
     c = case
+    if c['mode'] == 'killsweep':
+        return
     if c['mode'] == 'enum':
         op = c['op']
         if op['t'] == 'iter':
